@@ -1078,7 +1078,7 @@ CLAUSES = {'history': pred_history}
 
 ident = st.sampled_from(IDENTS)
 name = st.one_of(ident, ident, ident, st.sampled_from(DIGITS))
-scalar = st.one_of(st.integers(-3, 99), st.sampled_from(['', 'xyz', 's']))
+scalar = st.one_of(st.integers(-3, 99), st.sampled_from(['', 'xyz', 's', None, None, False, 0.0]))
 index = st.sampled_from([0, 0, 1, 1, 2, -1, 5, 10])
 
 
